@@ -453,13 +453,16 @@ def conclude(prop, tier, seed, t0, info, broken, audit, recs, rng, n_corpus=0, r
     if discharged == 0:
         # the schema only accepts a proof-level block with discharged >= 1; say so in other words
         cov["discharged_count"] = cov.pop("discharged")
+    ev_ok = True
     if not replaying:
-        evidence.write(prop.id, ev)
+        ev_ok = evidence.write(prop.id, ev)
     for l in out_lines:
         print(l)
     print(f"[{prop.id}] tier={tier} seed={seed} obligations={obligations} discharged={discharged} cases={len(recs)} "
           f"nontrivial={cov['distinct_nontrivial']} disagreements={len(disagreements)} violations={ev['violations']} "
           f"known={len(known_hits)} wall={ev['wall_s']}s", file=sys.stderr)
+    if not ev_ok and exit_code == 0:
+        return 2            # a run that found nothing but could not describe itself is an infrastructure failure
     return exit_code
 
 
